@@ -17,11 +17,11 @@ What the theorems say about every input, every script of `find_matches` / `skip`
   with strictly increasing lengths and never more than `nice_len - 1` of them (`hc4_generated_sound`);
   no table, chain or window index it computes is out of range (`hc4_generated_indices`).
 * BT4: the same for lengths, distances, count and indices (`bt4_generated_bounds`, `bt4_generated_indices`) and for
-  the matches that come from the 2- and 3-byte hash tables (`bt4_generated_hash_candidates`).  That the matches
-  found in the TREE descent are repetitions is proved only for `depth_limit = 1`
-  (`Bt4.bt4_tree_matches_valid_partial`; the general statement needs the binary-search-tree invariant over the
-  cyclic array and is stated in `Proofs/Bt4Tree.lean`); for the general case every real trace is validated
-  per run by the executable `Mf.validMatchB` (sound by `Bt4.bt4_checked_match_valid`).
+  the matches that come from the 2- and 3-byte hash tables (`bt4_generated_hash_candidates`); and
+  `bt4_generated_tree_matches_valid`: EVERY reported match, including those found in the binary-tree descent at any
+  `depth_limit`, is a real repetition (`Bt4.bt4_tree_matches_valid`, by the binary-search-tree invariant over the
+  cyclic array, `Proofs/Bt4Bst*.lean`).  As a second line every real trace is still validated per run by the
+  executable `Mf.validMatchB` (sound by `Bt4.bt4_checked_match_valid`).
 -/
 namespace LzmaVerif.Props.C01Mf
 open LzmaVerif.Mf
@@ -66,6 +66,15 @@ theorem bt4_generated_hash_candidates {c : Bt4.Cfg} {data : Array UInt8} (hH : B
     ∀ m ∈ Bt4.hashCandMatches MfGen.bt4Params c data s,
       ValidMatch data c.dict s.pos (min c.mlmax (data.size - s.pos)) m :=
   Bt4.bt4_hash_candidates_valid hH script logging
+
+/-- BT4 with the parameters of the current source: every reported match (hash candidates and tree descent, every
+    `depth_limit`, every dictionary size, every input, every script) is a real repetition -/
+theorem bt4_generated_tree_matches_valid {c : Bt4.Cfg} {data : Array UInt8} (hA : Bt4.HypA MfGen.bt4Params c data)
+    (script : List Nat) (logging : Bool) :
+    let s := (Bt4.runScript MfGen.bt4Params c data script logging).1
+    ∀ m ∈ (Bt4.find MfGen.bt4Params c data s).2.toList,
+      ValidMatch data c.dict s.pos (min c.mlmax (data.size - s.pos)) m :=
+  Bt4.bt4_tree_matches_valid hA script logging
 
 /-- BT4 with the parameters of the current source: no index out of range -/
 theorem bt4_generated_indices {c : Bt4.Cfg} {data : Array UInt8} (hA : Bt4.HypA MfGen.bt4Params c data)
